@@ -10,9 +10,11 @@ import (
 	"context"
 	"crypto/sha256"
 	"fmt"
+	"reflect"
 	"sort"
 	"strings"
 	"testing"
+	"unsafe"
 
 	k1 "github.com/decred/dcrd/dcrec/secp256k1/v4"
 	"github.com/libp2p/go-libp2p/core/host"
@@ -294,7 +296,7 @@ func (w *c13world) key() string {
 			d = append(d, fmt.Sprintf("%d/%s=%x", w.idx(k.PeerID), k.MsgID, h[:4]))
 		}
 		sort.Strings(d)
-		parts = append(parts, fmt.Sprintf("m%d{%s}", i, strings.Join(d, ",")))
+		parts = append(parts, fmt.Sprintf("m%d{%s}%s", i, strings.Join(d, ","), c13otherState(c.srv)))
 	}
 	var dl []string
 	for _, d := range w.deliv {
@@ -453,14 +455,87 @@ func c13perms(n int) [][]int {
 
 type c13viol struct{ sig, desc string }
 
-// clone copies a world: fresh real components plus a copy of each server's dedup map (the servers' only
-// mutable state; the first transitions of every run are cross-checked against a full replay of the history).
+// c13otherState renders every state-carrying field of a server other than the dedup map (which key() renders itself)
+// and the registration tables: empty for the unchanged code, so that states which differ only in state a change added
+// to the server are not merged.
+func c13otherState(srv *server) string {
+	sv := reflect.ValueOf(srv).Elem()
+	var out []string
+	for i := 0; i < sv.NumField(); i++ {
+		name := sv.Type().Field(i).Name
+		if name == "dedup" || name == "msgIDFuncs" {
+			continue
+		}
+		f := sv.Field(i)
+		f = reflect.NewAt(f.Type(), unsafe.Pointer(f.UnsafeAddr())).Elem()
+		switch f.Kind() {
+		case reflect.Map:
+			var e []string
+			it := f.MapRange()
+			for it.Next() {
+				e = append(e, fmt.Sprintf("%v=%v", it.Key().Interface(), it.Value().Interface()))
+			}
+			sort.Strings(e)
+			out = append(out, name+"{"+strings.Join(e, ",")+"}")
+		case reflect.Slice, reflect.Bool, reflect.Int, reflect.Int8, reflect.Int16, reflect.Int32, reflect.Int64, reflect.Uint, reflect.Uint8, reflect.Uint16,
+			reflect.Uint32, reflect.Uint64, reflect.String, reflect.Array:
+			out = append(out, fmt.Sprintf("%s=%v", name, f.Interface()))
+		}
+	}
+	if len(out) == 0 {
+		return ""
+	}
+	return "+" + strings.Join(out, ";")
+}
+
+// c13copyState copies the mutable state of a server into a fresh one generically (by reflection over ALL fields, so
+// that state a change adds to the server is carried along as well): maps and slices are deep-copied, scalars assigned;
+// locks, functions, interfaces, channels and pointers keep the fresh instance's values.
+func c13copyState(dst, src *server) {
+	dv, sv := reflect.ValueOf(dst).Elem(), reflect.ValueOf(src).Elem()
+	for i := 0; i < sv.NumField(); i++ {
+		sf, df := sv.Field(i), dv.Field(i)
+		sf = reflect.NewAt(sf.Type(), unsafe.Pointer(sf.UnsafeAddr())).Elem()
+		df = reflect.NewAt(df.Type(), unsafe.Pointer(df.UnsafeAddr())).Elem()
+		switch sf.Kind() {
+		case reflect.Map:
+			if sf.Type().Elem().Kind() == reflect.Func || sf.Type().Elem().Kind() == reflect.Struct && sf.Type().Elem().NumField() > 0 && sf.Type().Elem().Field(0).Type.Kind() == reflect.Func {
+				continue // registration tables (functions): identical in every world
+			}
+			if sf.IsNil() {
+				continue
+			}
+			m := reflect.MakeMapWithSize(sf.Type(), sf.Len())
+			it := sf.MapRange()
+			for it.Next() {
+				v := it.Value()
+				if v.Kind() == reflect.Slice && !v.IsNil() {
+					c := reflect.MakeSlice(v.Type(), v.Len(), v.Len())
+					reflect.Copy(c, v)
+					v = c
+				}
+				m.SetMapIndex(it.Key(), v)
+			}
+			df.Set(m)
+		case reflect.Slice:
+			if !sf.IsNil() {
+				c := reflect.MakeSlice(sf.Type(), sf.Len(), sf.Len())
+				reflect.Copy(c, sf)
+				df.Set(c)
+			}
+		case reflect.Bool, reflect.Int, reflect.Int8, reflect.Int16, reflect.Int32, reflect.Int64, reflect.Uint, reflect.Uint8, reflect.Uint16,
+			reflect.Uint32, reflect.Uint64, reflect.Float32, reflect.Float64, reflect.String, reflect.Array:
+			df.Set(sf)
+		}
+	}
+}
+
+// clone copies a world: fresh real components plus a copy of each server's mutable state (the first transitions of
+// every run and every 64th later one are cross-checked against a full replay of the history).
 func (w *c13world) clone(t *testing.T) *c13world {
 	nw := c13newWorld(t, w.n, w.faulty)
 	for i := range w.comps {
-		for k, v := range w.comps[i].srv.dedup {
-			nw.comps[i].srv.dedup[k] = v
-		}
+		c13copyState(nw.comps[i].srv, w.comps[i].srv)
 	}
 	nw.deliv = append(nw.deliv, w.deliv...)
 	for k, v := range w.known {
@@ -700,7 +775,7 @@ func TestVerifC13(t *testing.T) {
 					w2 := w.clone(t)
 					w2.apply(ev)
 					viol := w2.check()
-					if xchecks < 300 {
+					if xchecks < 300 || trans%64 == 0 {
 						xchecks++
 						if w3, _ := c13replay(t, cs); w3.key() != w2.key() {
 							r.Note("HARNESS: clone+apply differs from replay for " + fmt.Sprint(cs.Events))
